@@ -16,10 +16,10 @@ def pairs (j : Json) (k : String) : E Headers := do
 def uriTab (c : Json) : E UriParse := do
   let rows ← (arrD c "uri_tab").mapM fun row => do
     match ← row.getArr? with
-    | #[v, ok, p, q] => pure (← v.getStr?, ← ok.getBool?, ← p.getStr?, ← q.getStr?)
+    | #[v, ok, rp, ep, q] => pure (← v.getStr?, ← ok.getBool?, ← rp.getStr?, ← ep.getStr?, ← q.getStr?)
     | _ => throw "bad uri_tab row"
   pure fun v => match rows.find? (fun r => r.1 == v) with
-    | some (_, true, p, q) => some (p, q)
+    | some (_, true, rp, ep, q) => some ⟨rp, ep, q⟩
     | _ => none
 
 /-! the rule set of the harness (fixture, see harness/main/fwd.go `fwdRules`): which rule the real matcher selects
@@ -42,7 +42,8 @@ def runReq (c : Json) : E Json := do
     | .ok (.arr a) => a.toList.filterMap (·.getStr?.toOption)
     | _ => []
   let r : Req := {
-    method := ← str c "method", host := ← str c "host", escPath := ← str c "esc_path",
+    method := ← str c "method", host := ← str c "host", rawPath := strD c "raw_path" "",
+    escPath := ← str c "esc_path",
     rawQuery := ← str c "raw_query", tls := boolD c "tls" false, remoteAddr := ← str c "remote",
     wire := ← pairs c "headers" }
   let parse ← uriTab c
@@ -59,7 +60,12 @@ def runReq (c : Json) : E Json := do
     (if o.view.rawPath != base.rawPath then ["path"] else []) ++
     (if o.view.query != base.query then ["query"] else []) ++
     (if o.view.ips != base.ips then ["ips"] else [])
+  let offered := (parse (hget h "X-Forwarded-Uri")).getD ⟨"", "", ""⟩
+  let spellingKept := r.path != r.escPath ||
+    (hget h "X-Forwarded-Uri" != "" && pathAsReceived offered.rawPath offered.escPath != offered.escPath)
   let stats := Json.mkObj [("trusted", Json.bool tr), ("family_lines", jnat fam.length),
+    ("received_path_differs_from_go_encoding", Json.bool spellingKept),
+    ("query_from_header", Json.bool (offered.rawQuery != "" && o.view.query == offered.rawQuery)),
     ("family_names", jstrs (fam.map (·.1)).eraseDups), ("overridden", jstrs changed),
     ("rule", jstr ((ruleOf o.view).getD "none")),
     ("rule_differs_from_actual", Json.bool (ruleOf o.view != ruleOf base)),
